@@ -13,6 +13,7 @@ for n in $names; do
   out=$(./vcheck.sh -p $props -no-evidence 2>&1); rc=$?
   git -C /repo checkout -- .
   if [ $rc -eq 1 ]; then echo "$n: CAUGHT by $props"; echo "$out" | grep "violation:" | head -3 | sed 's/^/      /';
+  elif [ $rc -eq 0 ] && grep -q '"expect": "missed"' $d/meta.json; then echo "$n: MISSED by $props (documented limit, DESIGN 7)";
   elif [ $rc -eq 0 ]; then echo "$n: MISSED by $props";
   elif [ $rc -eq 2 ] && grep -q '"expect": "undecided"' $d/meta.json; then echo "$n: UNDECIDED by $props (expected: shape not derived for; not passed as green)";
   else echo "$n: checker undecided/error rc=$rc"; echo "$out" | tail -3; fi
